@@ -171,7 +171,7 @@ Section FractionQ.
   Definition dts_nonneg (evs : list (event Q V P)) : Prop :=
     forall len dt i, In (EvProcess len dt i) evs -> 0 <= dt.
   Definition pos_frac_ok (o : obs Q A) : Prop :=
-    match o with OPos _ _ fp _ => frac_ok fp | OOut _ _ _ => True end.
+    match o with OPos _ _ _ fp _ => frac_ok fp | OOut _ _ _ => True end.
   Definition w_ok (w : stream Q A V P) : Prop :=
     frac_ok (y_fpos (z_core (w_sound w))) /\ (0 <= y_sr (z_core (w_sound w)))%Z.
 
